@@ -1,2 +1,121 @@
-(* C15 placeholder during construction *)
-From PD Require Import Base.Field Base.Matrix.
+(* C15 -- Results are invariant under pytree structure and permutation
+   (proof part; PARTIAL).
+
+   Model/Ravel.v: a pytree is an ordered tree with array leaves (shape + entries
+   in C order), a Taylor-coefficient structure is a list of n such trees with
+   one common shape tree s (d = size s flat components), and the three
+   state-space factorisations ravel it as
+     dense      concatenation of the ravelled coefficients     (n*d,)
+     isotropic  stack of the ravelled coefficients             (n, d)
+     blockdiag  the transpose of that                          (d, n)
+   (DenseTreeFlatten / IsotropicTreeFlatten / BlockDiagTreeFlatten).
+
+   Proved for ALL trees, shapes, n, d, entry types:
+     T15.1  unflatten_array (flatten_tree x) = x  in the three orders, and
+            flatten_tree (unflatten_array v) = v  (so means/stds come back in
+            the caller's structure, nothing is lost or reordered)
+     T15.2  isotropic[i][a] = dense[i*d + a] = blockdiag[a][i], with the array
+            shapes (n*d,), (n,d), (d,n)
+     T15.3  re-indexing the flat components by sigma (a permutation, or any map
+            into 0..d-1) re-indexes the three ravels consistently.
+
+   NOT PROVED, AND NOT PROVABLE IN A GALLINA MODEL: that compiling with jax.jit
+   or batching with jax.vmap gives the same numbers as eager, one-at-a-time
+   execution (including adaptive solves whose batch members take different
+   numbers of steps).  These are runtime properties of JAX/XLA; they are
+   checked on the real implementation by harness/c15.py only.  The theorem
+   names below carry the suffix _partial for this reason: each is a complete
+   theorem about the ravel orders, but together they cover only the
+   pytree/permutation half of C15. *)
+From Coq Require Import List Arith.
+From PD Require Import Model.Ravel Proofs.RavelProofs.
+Import ListNotations.
+
+Section C15.
+  Context {A : Type}.
+  Variable dflt : A.
+
+  (* ---- T15.1: round trips ---- *)
+  Theorem C15_unravel_ravel_one_tree_partial :
+    forall t : tree A, wf t -> fst (unravel (shape_of t) (ravel_tree t)) = t.
+  Proof. exact unravel_ravel_tree. Qed.
+
+  Theorem C15_unravel_ravel_dense_partial :
+    forall (s : stree) (x : list (tree A)),
+      coeffs_ok s x -> unravel_dense s (length x) (ravel_dense x) = x.
+  Proof. exact unravel_ravel_dense. Qed.
+
+  Theorem C15_unravel_ravel_isotropic_partial :
+    forall (s : stree) (x : list (tree A)),
+      coeffs_ok s x -> unravel_iso s (ravel_iso x) = x.
+  Proof. exact unravel_ravel_iso. Qed.
+
+  Theorem C15_unravel_ravel_blockdiag_partial :
+    forall (s : stree) (x : list (tree A)),
+      coeffs_ok s x -> unravel_blockdiag dflt s (length x) (ravel_blockdiag dflt s x) = x.
+  Proof. exact (unravel_ravel_blockdiag dflt). Qed.
+
+  (* the other direction: any (n, d) array is the ravel of its unravel, and the
+     unravel has the caller's shape tree *)
+  Theorem C15_ravel_unravel_isotropic_partial :
+    forall (s : stree) (M : list (list A)),
+      Forall (fun r => length r = size s) M ->
+      ravel_iso (unravel_iso s M) = M /\ coeffs_ok s (unravel_iso s M).
+  Proof. intros s M H. split; [apply ravel_unravel_iso|apply unravel_iso_ok]; exact H. Qed.
+
+  (* ---- T15.2: the three orders hold the same numbers ---- *)
+  Theorem C15_ravel_orders_agree_partial :
+    forall (s : stree) (x : list (tree A)) i a,
+      coeffs_ok s x -> i < length x -> a < size s ->
+      nth a (nth i (ravel_iso x) []) dflt = nth (i * size s + a) (ravel_dense x) dflt
+      /\ nth a (nth i (ravel_iso x) []) dflt = nth i (nth a (ravel_blockdiag dflt s x) []) dflt.
+  Proof. exact (ravel_orders_agree dflt). Qed.
+
+  Theorem C15_ravel_shapes_partial :
+    forall (s : stree) (x : list (tree A)),
+      coeffs_ok s x ->
+      length (ravel_dense x) = length x * size s
+      /\ (length (ravel_iso x) = length x /\ Forall (fun r => length r = size s) (ravel_iso x))
+      /\ (length (ravel_blockdiag dflt s x) = size s
+          /\ Forall (fun r => length r = length x) (ravel_blockdiag dflt s x)).
+  Proof. exact (ravel_shapes dflt). Qed.
+
+  (* ---- T15.3: permuting the state components permutes the ravel ---- *)
+  Theorem C15_permuted_structure_is_well_formed_partial :
+    forall sigma (s : stree) (x : list (tree A)),
+      coeffs_ok s (permute_coeffs dflt sigma s x)
+      /\ length (permute_coeffs dflt sigma s x) = length x.
+  Proof. exact (permute_coeffs_ok dflt). Qed.
+
+  Theorem C15_isotropic_ravel_of_permuted_partial :
+    forall sigma (s : stree) (x : list (tree A)),
+      ravel_iso (permute_coeffs dflt sigma s x)
+      = map (reindex dflt sigma (size s)) (ravel_iso x).
+  Proof. exact (ravel_iso_permuted dflt). Qed.
+
+  Theorem C15_dense_ravel_of_permuted_partial :
+    forall sigma (s : stree) (x : list (tree A)) i a,
+      coeffs_ok s x -> i < length x -> a < size s -> sigma a < size s ->
+      nth (i * size s + a) (ravel_dense (permute_coeffs dflt sigma s x)) dflt
+      = nth (i * size s + sigma a) (ravel_dense x) dflt.
+  Proof. exact (ravel_dense_permuted dflt). Qed.
+
+  Theorem C15_blockdiag_ravel_of_permuted_partial :
+    forall sigma (s : stree) (x : list (tree A)),
+      (forall a, a < size s -> sigma a < size s) ->
+      ravel_blockdiag dflt s (permute_coeffs dflt sigma s x)
+      = map (fun a => nth (sigma a) (ravel_blockdiag dflt s x) []) (seq 0 (size s)).
+  Proof. exact (ravel_blockdiag_permuted dflt). Qed.
+End C15.
+
+Print Assumptions C15_unravel_ravel_one_tree_partial.
+Print Assumptions C15_unravel_ravel_dense_partial.
+Print Assumptions C15_unravel_ravel_isotropic_partial.
+Print Assumptions C15_unravel_ravel_blockdiag_partial.
+Print Assumptions C15_ravel_unravel_isotropic_partial.
+Print Assumptions C15_ravel_orders_agree_partial.
+Print Assumptions C15_ravel_shapes_partial.
+Print Assumptions C15_permuted_structure_is_well_formed_partial.
+Print Assumptions C15_isotropic_ravel_of_permuted_partial.
+Print Assumptions C15_dense_ravel_of_permuted_partial.
+Print Assumptions C15_blockdiag_ravel_of_permuted_partial.
